@@ -10,23 +10,21 @@ Check C04_ring :
   (NoDup (map fst raw) -> sorted_strict (sort_ring raw)).
 Check C04_ring_range :
   forall (g : ring N) t,
-  sorted_strict g -> ring_range_full g t = clockwise g t.
+  sorted_weak g -> ring_range_full g t = clockwise g t.
 Check C04_simple :
   forall (g : ring N) t rf,
-  sorted_strict g -> simple_replicas g t rf = spec_simple g t rf.
+  sorted_weak g -> simple_replicas g t rf = spec_simple g t rf.
 Check C04_nts :
   forall dcf rackf (g : ring N) t d rf,
-  sorted_weak g -> sorted_strict (dcpos dcf g d) ->
-  nts_replicas dcf rackf g t d rf = spec_nts_dc dcf rackf g t d rf.
+  sorted_weak g -> nts_replicas dcf rackf g t d rf = spec_nts_dc dcf rackf g t d rf.
 Check C04_replicas :
   forall dcf rackf (g : ring N) pre t s dc,
-  sorted_strict g ->
+  sorted_weak g ->
   rs_iter dcf rackf g pre t (replicas_for dcf rackf g pre t s dc) = spec_replicas dcf rackf g t s dc.
-Check C04_replicas_nts :
-  forall dcf rackf (g : ring N) pre t m dc,
-  sorted_weak g -> (forall d, sorted_strict (dcpos dcf g d)) ->
-  rs_iter dcf rackf g pre t (replicas_for dcf rackf g pre t (NTS m) dc) =
-  spec_replicas dcf rackf g t (NTS m) dc.
+Check C04_replicas_any_ring :
+  forall dcf rackf (raw : ring N) pre t s dc,
+  rs_iter dcf rackf (sort_ring raw) pre t (replicas_for dcf rackf (sort_ring raw) pre t s dc) =
+  spec_replicas dcf rackf (sort_ring raw) t s dc.
 Check C04_prefix_simple :
   forall (g : ring N) t rf m,
   (rf <= m)%nat -> simple_replicas g t rf = firstn rf (simple_replicas g t m).
@@ -36,14 +34,14 @@ Check C04_prefix_nts :
   nts_replicas dcf rackf g t d rf = firstn rf (nts_replicas dcf rackf g t d m).
 Check C04_token_snap :
   forall dcf rackf (g : ring N) t d rf e,
-  (sorted_strict g -> get_entry_for_token g t = Some e ->
+  (sorted_weak g -> get_entry_for_token g t = Some e ->
      simple_replicas g (fst e) rf = simple_replicas g t rf) /\
-  (sorted_strict (dc_ring dcf g d) -> get_entry_for_token (dc_ring dcf g d) t = Some e ->
+  (get_entry_for_token (dc_ring dcf g d) t = Some e ->
      nts_replicas dcf rackf g (fst e) d rf = nts_replicas dcf rackf g t d rf).
 Check C04_precomputed :
   forall dcf rackf (g : ring N) pre t d rf,
-  (sorted_strict g -> get_simple g pre t rf = simple_replicas g t rf) /\
-  (sorted_strict (dc_ring dcf g d) -> get_nts dcf rackf g pre t d rf = nts_replicas dcf rackf g t d rf).
+  (sorted_weak g -> get_simple g pre t rf = simple_replicas g t rf) /\
+  get_nts dcf rackf g pre t d rf = nts_replicas dcf rackf g t d rf.
 Check C04_precomputed_rings :
   forall dcf rackf (g : ring N) pre t d m,
   (sorted_weak g ->
@@ -53,7 +51,7 @@ Check C04_precomputed_rings :
   pre_lookup (dc_ring dcf g d) (fun tk => nts_replicas dcf rackf g tk d m) t.
 Check C04_precomputed_any :
   forall dcf rackf (g : ring N) pre pre' t s dc,
-  sorted_strict g ->
+  sorted_weak g ->
   rs_iter dcf rackf g pre t (replicas_for dcf rackf g pre t s dc) =
   rs_iter dcf rackf g pre' t (replicas_for dcf rackf g pre' t s dc).
 Check C04_dc_filter :
@@ -68,7 +66,7 @@ Check C04_nts_sat :
   nts_replicas dcf rackf g t d (Nat.min rf (nodes_in_dc dcf g d)) = nts_replicas dcf rackf g t d rf.
 Check C04_views_len :
   forall dcf rackf (g : ring N) pre t s dc,
-  sorted_weak g -> (forall d, sorted_strict (dcpos dcf g d)) -> nts_keys_ok s ->
+  nts_keys_ok s ->
   rs_len dcf g (replicas_for dcf rackf g pre t s dc) =
   List.length (rs_iter dcf rackf g pre t (replicas_for dcf rackf g pre t s dc)).
 Check C04_views_nth :
@@ -76,36 +74,29 @@ Check C04_views_nth :
   rs_nth dcf rackf g pre t s k = nth_error (rs_iter dcf rackf g pre t s) k.
 Check C04_views_choose :
   forall dcf rackf (g : ring N) pre t s dc index,
-  sorted_weak g -> (forall d, sorted_strict (dcpos dcf g d)) -> nts_keys_ok s ->
+  nts_keys_ok s ->
   rs_choose dcf rackf g pre t (replicas_for dcf rackf g pre t s dc) index =
   nth_error (rs_iter dcf rackf g pre t (replicas_for dcf rackf g pre t s dc)) index.
 Check C04_views_nodup :
   forall dcf rackf (g : ring N) pre t,
-  sorted_strict g -> forall s dc, NoDup (rs_iter dcf rackf g pre t (replicas_for dcf rackf g pre t s dc)).
+  sorted_weak g -> forall s dc, NoDup (rs_iter dcf rackf g pre t (replicas_for dcf rackf g pre t s dc)).
 Check C04_views_ordered :
   forall dcf rackf (g : ring N) pre t,
-  sorted_strict g -> forall s dc, nts_keys_ok s ->
+  sorted_weak g -> forall s dc, nts_keys_ok s ->
   rs_ordered dcf rackf g pre t (replicas_for dcf rackf g pre t s dc) =
   (filter (fun x => mem x (rs_iter dcf rackf g pre t (replicas_for dcf rackf g pre t s dc)))
           (uniq (ring_range g t)), []).
 Check C04_views_ordered_perm :
   forall dcf rackf (g : ring N) pre t,
-  sorted_strict g -> forall s dc, nts_keys_ok s ->
+  sorted_weak g -> forall s dc, nts_keys_ok s ->
   Permutation (fst (rs_ordered dcf rackf g pre t (replicas_for dcf rackf g pre t s dc)))
               (rs_iter dcf rackf g pre t (replicas_for dcf rackf g pre t s dc)).
-Check C04_views_ordered_refuted :
-  exists dcf rackf g pre t s dc,
-    sorted_weak g /\ (forall d, sorted_strict (dcpos dcf g d)) /\ nts_keys_ok s /\
-    ~ Permutation (fst (rs_ordered dcf rackf g pre t (replicas_for dcf rackf g pre t s dc)))
-                  (rs_iter dcf rackf g pre t (replicas_for dcf rackf g pre t s dc)).
-Check C04_precomputed_refuted :
-  exists (g : ring N) pre t rf, sorted_weak g /\ get_simple g pre t rf <> simple_replicas g t rf.
 Print Assumptions C04_ring.
 Print Assumptions C04_ring_range.
 Print Assumptions C04_simple.
 Print Assumptions C04_nts.
 Print Assumptions C04_replicas.
-Print Assumptions C04_replicas_nts.
+Print Assumptions C04_replicas_any_ring.
 Print Assumptions C04_prefix_simple.
 Print Assumptions C04_prefix_nts.
 Print Assumptions C04_token_snap.
@@ -121,5 +112,3 @@ Print Assumptions C04_views_choose.
 Print Assumptions C04_views_nodup.
 Print Assumptions C04_views_ordered.
 Print Assumptions C04_views_ordered_perm.
-Print Assumptions C04_views_ordered_refuted.
-Print Assumptions C04_precomputed_refuted.
